@@ -1,7 +1,7 @@
 (** Types of the schema go2v (schema mode) extracts from pkg/provider/xml/*/models.go: per struct type its exported
     fields in declaration order, each with the Go type expression and the raw xml struct tag. *)
 From Coq Require Import String List.
-Inductive ftype := TStr | TBool | TInt | TXMLName | TNamed (n : string) | TPtr (t : ftype) | TSlice (t : ftype).
+Inductive ftype := TStr | TBool | TInt | TUint | TXMLName | TNamed (n : string) | TPtr (t : ftype) | TSlice (t : ftype).
 Record gfield := { g_name : string; g_type : ftype; g_tag : option string }.
 Inductive sdef := SStruct (fs : list gfield) | SAlias (t : ftype).
 Definition schema := list (string * sdef).
